@@ -23,7 +23,7 @@
   * the constant tables are read from the generated modules `DecGen/T_*.lean` (`tw t k i j` = word `j` of entry `i`
     of a table of `k`-word entries, `tv t k i` = the entry as a number).  An index past the end of a table (a Rust
     panic) reads 0 here; it cannot happen for `q`, `x` in the range of the routine, `1 ≤ x ≤ q − 1` (the domain of
-    `hkRound`).
+    `hkRound`): no index depends on `C`, and `C02RoundHelpers.idx64_in_range … idx256_in_range` check every `(q, x)`.
   * the product `P = C · Kx` (`__mul_64x64_to_128MACH`, `__mul_128x128_to_256`, `__mul_192x192_to_384`,
     `__mul_256x256_to_512` of bid_internal.rs) is the exact product of the two numbers, `P.w[k]` being its `k`-th
     64-bit word (`wd P k`).  Those four multi-word multipliers are schoolbook multiplications with explicit carries
@@ -35,6 +35,8 @@
   Each routine is the composition, in program order, of the blocks the Rust code is made of (the comments give the
   line numbers): add the midpoint (`…AddMid`), multiply by `Kx`, split the product into `C*` and `f*` (`…Split`),
   the inexactness tests (`…Inexact`), the midpoint test (`…Midpoint`), the rounding-overflow test (`…Ovf`).
+  In `bid_round256_58_76` the carry idioms that the four branches of the first block repeat verbatim are written once
+  (`r256Add0 … r256Add3`).
 
   A defect the model reproduces: line 945 of `bid_round256_58_76` compares `fstar.w[3]` with
   `BID_TEN2MXTRUNC256[ind].w[2]` (it should be `.w[3]`; the same slip is in Intel's C original).  It only matters
@@ -140,6 +142,11 @@ structure U512 where
 def U128.val (a : U128) : Nat := a.w0 + 2 ^ 64 * a.w1
 def U192.val (a : U192) : Nat := a.w0 + 2 ^ 64 * a.w1 + 2 ^ 128 * a.w2
 def U256.val (a : U256) : Nat := a.w0 + 2 ^ 64 * a.w1 + 2 ^ 128 * a.w2 + 2 ^ 192 * a.w3
+def U384.val (a : U384) : Nat :=
+  a.w0 + 2 ^ 64 * a.w1 + 2 ^ 128 * a.w2 + 2 ^ 192 * a.w3 + 2 ^ 256 * a.w4 + 2 ^ 320 * a.w5
+def U512.val (a : U512) : Nat :=
+  a.w0 + 2 ^ 64 * a.w1 + 2 ^ 128 * a.w2 + 2 ^ 192 * a.w3 + 2 ^ 256 * a.w4 + 2 ^ 320 * a.w5 + 2 ^ 384 * a.w6
+    + 2 ^ 448 * a.w7
 
 /-- the four rounding indicators (all `false` on entry) -/
 structure Ind where
@@ -413,55 +420,51 @@ def round192 (q x : Nat) (C : U192) : Out U192 :=
 
 /-! ### bid_round256_58_76 (lines 708–1175) -/
 
-/-- lines 748–837 -/
+/-- the carry idiom of lines 751–761 (again at 764–774, 785–795, 811–821): `tmp64 = C.w[0]; C.w[0] += m;`
+`if C.w[0] < tmp64 { C.w[1] += 1; if C.w[1] == 0 { C.w[2] += 1; if C.w[2] == 0 { C.w[3] += 1; } } }` -/
+def r256Add0 (C : U256) (m : Nat) : U256 :=
+  let tmp64 := C.w0
+  let w0 := add64 C.w0 m
+  let w1 := if w0 < tmp64 then add64 C.w1 1 else C.w1
+  let w2 := if w0 < tmp64 then (if w1 == 0 then add64 C.w2 1 else C.w2) else C.w2
+  let w3 := if w0 < tmp64 then (if w1 == 0 then (if w2 == 0 then add64 C.w3 1 else C.w3) else C.w3) else C.w3
+  ⟨w0, w1, w2, w3⟩
+
+/-- lines 775–782 (again at 796–803, 822–829): `tmp64 = C.w[1]; C.w[1] += m;`
+`if C.w[1] < tmp64 { C.w[2] += 1; if C.w[2] == 0 { C.w[3] += 1; } }` -/
+def r256Add1 (C : U256) (m : Nat) : U256 :=
+  let tmp64 := C.w1
+  let w1 := add64 C.w1 m
+  let w2 := if w1 < tmp64 then add64 C.w2 1 else C.w2
+  let w3 := if w1 < tmp64 then (if w2 == 0 then add64 C.w3 1 else C.w3) else C.w3
+  ⟨C.w0, w1, w2, w3⟩
+
+/-- lines 804–808 (again at 830–834): `tmp64 = C.w[2]; C.w[2] += m; if C.w[2] < tmp64 { C.w[3] += 1; }` -/
+def r256Add2 (C : U256) (m : Nat) : U256 :=
+  let tmp64 := C.w2
+  let w2 := add64 C.w2 m
+  let w3 := if w2 < tmp64 then add64 C.w3 1 else C.w3
+  ⟨C.w0, C.w1, w2, w3⟩
+
+/-- line 835: `C.w[3] += m` -/
+def r256Add3 (C : U256) (m : Nat) : U256 := ⟨C.w0, C.w1, C.w2, add64 C.w3 m⟩
+
+/-- lines 748–837: `C = C + 1/2 * 10^x` -/
 def r256AddMid (ind : Nat) (C : U256) : U256 :=
   if ind ≤ 18 then
-    let tmp64 := C.w0                                                      -- 751
-    let w0 := add64 C.w0 (tw BID_MIDPOINT64 1 ind 0)                       -- 752
-    let w1 := if w0 < tmp64 then add64 C.w1 1 else C.w1                    -- 753–754
-    let w2 := if w0 < tmp64 then (if w1 == 0 then add64 C.w2 1 else C.w2) else C.w2   -- 755–756
-    let w3 := if w0 < tmp64 then (if w1 == 0 then (if w2 == 0 then add64 C.w3 1 else C.w3) else C.w3) else C.w3   -- 757–759
-    ⟨w0, w1, w2, w3⟩
+    r256Add0 C (tw BID_MIDPOINT64 1 ind 0)                                 -- 751–761
   else if ind ≤ 37 then
-    let tmp64 := C.w0                                                      -- 764
-    let w0 := add64 C.w0 (tw BID_MIDPOINT128 2 (ind - 19) 0)               -- 765
-    let w1 := if w0 < tmp64 then add64 C.w1 1 else C.w1                    -- 766–767
-    let w2 := if w0 < tmp64 then (if w1 == 0 then add64 C.w2 1 else C.w2) else C.w2   -- 768–769
-    let w3 := if w0 < tmp64 then (if w1 == 0 then (if w2 == 0 then add64 C.w3 1 else C.w3) else C.w3) else C.w3   -- 770–772
-    let tmp64 := w1                                                        -- 775
-    let w1 := add64 w1 (tw BID_MIDPOINT128 2 (ind - 19) 1)                 -- 776
-    let w2' := if w1 < tmp64 then add64 w2 1 else w2                       -- 777–778
-    let w3 := if w1 < tmp64 then (if w2' == 0 then add64 w3 1 else w3) else w3       -- 779–781
-    ⟨w0, w1, w2', w3⟩
+    let C := r256Add0 C (tw BID_MIDPOINT128 2 (ind - 19) 0)                -- 764–774
+    r256Add1 C (tw BID_MIDPOINT128 2 (ind - 19) 1)                         -- 775–782
   else if ind ≤ 57 then
-    let tmp64 := C.w0                                                      -- 785
-    let w0 := add64 C.w0 (tw BID_MIDPOINT192 3 (ind - 38) 0)               -- 786
-    let w1 := if w0 < tmp64 then add64 C.w1 1 else C.w1                    -- 787–788
-    let w2 := if w0 < tmp64 then (if w1 == 0 then add64 C.w2 1 else C.w2) else C.w2   -- 789–790
-    let w3 := if w0 < tmp64 then (if w1 == 0 then (if w2 == 0 then add64 C.w3 1 else C.w3) else C.w3) else C.w3   -- 791–793
-    let tmp64 := w1                                                        -- 796
-    let w1 := add64 w1 (tw BID_MIDPOINT192 3 (ind - 38) 1)                 -- 797
-    let w2' := if w1 < tmp64 then add64 w2 1 else w2                       -- 798–799
-    let w3 := if w1 < tmp64 then (if w2' == 0 then add64 w3 1 else w3) else w3       -- 800–802
-    let tmp64 := w2'                                                       -- 804
-    let w2'' := add64 w2' (tw BID_MIDPOINT192 3 (ind - 38) 2)              -- 805
-    let w3 := if w2'' < tmp64 then add64 w3 1 else w3                      -- 806–808
-    ⟨w0, w1, w2'', w3⟩
+    let C := r256Add0 C (tw BID_MIDPOINT192 3 (ind - 38) 0)                -- 785–795
+    let C := r256Add1 C (tw BID_MIDPOINT192 3 (ind - 38) 1)                -- 796–803
+    r256Add2 C (tw BID_MIDPOINT192 3 (ind - 38) 2)                         -- 804–808
   else
-    let tmp64 := C.w0                                                      -- 811
-    let w0 := add64 C.w0 (tw BID_MIDPOINT256 4 (ind - 58) 0)               -- 812
-    let w1 := if w0 < tmp64 then add64 C.w1 1 else C.w1                    -- 813–814
-    let w2 := if w0 < tmp64 then (if w1 == 0 then add64 C.w2 1 else C.w2) else C.w2   -- 815–816
-    let w3 := if w0 < tmp64 then (if w1 == 0 then (if w2 == 0 then add64 C.w3 1 else C.w3) else C.w3) else C.w3   -- 817–819
-    let tmp64 := w1                                                        -- 822
-    let w1 := add64 w1 (tw BID_MIDPOINT256 4 (ind - 58) 1)                 -- 823
-    let w2' := if w1 < tmp64 then add64 w2 1 else w2                       -- 824–825
-    let w3 := if w1 < tmp64 then (if w2' == 0 then add64 w3 1 else w3) else w3       -- 826–828
-    let tmp64 := w2'                                                       -- 830
-    let w2'' := add64 w2' (tw BID_MIDPOINT256 4 (ind - 58) 2)              -- 831
-    let w3 := if w2'' < tmp64 then add64 w3 1 else w3                      -- 832–834
-    let w3 := add64 w3 (tw BID_MIDPOINT256 4 (ind - 58) 3)                 -- 835
-    ⟨w0, w1, w2'', w3⟩
+    let C := r256Add0 C (tw BID_MIDPOINT256 4 (ind - 58) 0)                -- 811–821
+    let C := r256Add1 C (tw BID_MIDPOINT256 4 (ind - 58) 1)                -- 822–829
+    let C := r256Add2 C (tw BID_MIDPOINT256 4 (ind - 58) 2)                -- 830–834
+    r256Add3 C (tw BID_MIDPOINT256 4 (ind - 58) 3)                         -- 835
 
 /-- lines 845–917 -/
 def r256Split (ind : Nat) (P : Nat) : U256 × U512 :=
